@@ -1,9 +1,10 @@
 SPECIFICATION Spec
-CONSTANTS Widths = {1, 5} MaxH = 2 MaxOwn = 2 CtrMax = 3
+CONSTANTS Widths = {1, 5} MaxH = 3 MaxOwn = 2 CtrMax = 4
   LimbDom = {0, 1, 127, 128, 255, 256, 32767, 32768, 65535} IdWidths = {0, 1, 2, 3, 4, 5, 6, 7, 8, 9}
+  StreamWidths = {1, 8}
   MsgDom <- CMsgDom TextDom <- CTextDom
 CONSTRAINT Bound
 VIEW View
 INVARIANTS TypeOK Refines
-PROPERTIES SendsRight Final Accepted RefusedAfter RejectKeeps DefaultOnRelease ArmFrame IdTiers
+PROPERTIES SendsRight Final Accepted RefusedAfter RejectKeeps DefaultOnRelease ArmFrame IdTiers StreamOnce
 CHECK_DEADLOCK FALSE
